@@ -156,24 +156,43 @@ def run(chk, tier, seed, replay):
                       case={"derive": d, "item": it, "input": b["input"]}, expected="identical tokens in every process / order",
                       observed=b, tags={"kind": "nondeterministic", "derive": d})
     chk.sample({"derive": inputs[0][0], "item": inputs[0][1][:300], "events": [e for e in events if e["input"] == 0][:4]})
-    # rustc level: the real proc-macro in two separate compiler processes
-    if tier == "thorough" and not replay:
-        src = "#![allow(dead_code)]\n" + "\n".join(
-            f"mod m{i} {{ #[derive(derive_more::{d})] {('pub ' + it) if False else it} }}" for i, (d, it) in enumerate(special_inputs())
-            if d not in ("Error",)) + "\nfn main() {}\n"
-        dpath = vlib.write_probe("c19_rustc", src)
+    # rustc level: the real proc-macro in separate compiler processes, on the SAME items at DIFFERENT source positions
+    # (whitespace of different lengths is inserted before and between the items: it shifts every span's byte offsets and
+    # vanishes from the pretty-printed expansion, which must therefore stay byte-identical)
+    if not replay:
+        items = [(d, it) for d, it in special_inputs()]
+        if tier == "quick":
+            items = [x for k, x in enumerate(items) if k % 3 == 0 or x[0] == "Error"][:60]
+
+        def source(pad):
+            out = ["#![allow(dead_code)]"]
+            for i, (d, it) in enumerate(items):
+                if pad:
+                    out.append(" " * (pad * (i % 7 + 1) * 13 + (997 if i == 0 else 0)))      # whitespace shifts offsets, leaves no trace
+                out.append(f"mod m{i} {{ #[derive(derive_more::{d})] {it} }}")
+            return "\n".join(out) + "\nfn main() {}\n"
         outs = []
-        for k in range(2):
+        for k, pad in enumerate((0, 1, 77)):
+            dpath = vlib.write_probe("c19_rustc", source(pad))
             env = vlib.cargo_env({"CARGO_TARGET_DIR": os.path.join(vlib.BUILD, "target-probe-nightly")})
             p = subprocess.run(["cargo", "+nightly", "rustc", "--offline", "-q", "--", "-Zunpretty=expanded"], cwd=dpath, env=env,
                                stdout=subprocess.PIPE, stderr=subprocess.PIPE, timeout=1800)
-            subprocess.run(["touch", os.path.join(dpath, "src", "main.rs")])
-            outs.append(p.stdout)
-        chk.cov["evaluations"] += 2
+            if p.returncode != 0 or not p.stdout:
+                raise vlib.ToolError(f"cargo rustc -Zunpretty=expanded failed: {p.stderr.decode()[-800:]}")
+            # (the pretty printer keeps some of the source's blank lines: compare the non-blank lines)
+            outs.append(b"\n".join(l.strip() for l in p.stdout.splitlines() if l.strip()))
+        chk.cov["evaluations"] += len(items) * len(outs)
+        chk.cov["traces_validated_against_impl"] += len(items) * len(outs)
         chk.notes["rustc_unpretty_bytes"] = len(outs[0])
-        if outs[0] and outs[0] != outs[1]:
-            chk.deviation("rustc:unpretty", "two rustc runs expand the same crate differently", case={"crate": dpath},
-                          expected="byte-identical -Zunpretty=expanded output", observed="differs", tags={"kind": "nondeterministic"})
+        for k in range(1, len(outs)):
+            if outs[k] != outs[0]:
+                a, b = outs[0].decode("utf-8", "replace").splitlines(), outs[k].decode("utf-8", "replace").splitlines()
+                first = next((n for n, (x, y) in enumerate(zip(a, b)) if x != y), min(len(a), len(b)))
+                chk.deviation("rustc:unpretty:shifted", "the same items expand differently when their position in the source file changes "
+                              f"(first differing line {first + 1}: {a[first][:160] if first < len(a) else ''!r} vs {b[first][:160] if first < len(b) else ''!r})",
+                              case={"crate": "c19_rustc", "padding": [0, 1, 77][k]}, expected="byte-identical -Zunpretty=expanded output",
+                              observed="differs", tags={"kind": "nondeterministic"})
+                break
     chk.cov["rule"] = ("inputs: hashed-collection stress inputs + one per code path of every derive + a twin of each with the roles of "
                        "its names exchanged (generic <-> concrete); K fresh processes x orders x "
                        "repeats; non-trivial = inputs iterating hashed collections")
